@@ -204,25 +204,18 @@ impl<'a, Octs: Octets + ?Sized> ParseRecordData<'a, Octs>
 }
 
 impl<Name: ToName> ComposeRecordData for Rp<Name> {
-    fn rdlen(&self, compress: bool) -> Option<u16> {
-        if compress {
-            None
-        } else {
-            Some(self.mbox.compose_len() + self.txt.compose_len())
-        }
+    fn rdlen(&self, _compress: bool) -> Option<u16> {
+        // RP is not one of the RFC 1035 types, so its names must never be
+        // compressed (RFC 3597, section 4) and the length is always known.
+        Some(self.mbox.compose_len() + self.txt.compose_len())
     }
 
     fn compose_rdata<Target: Composer + ?Sized>(
         &self,
         target: &mut Target,
     ) -> Result<(), Target::AppendError> {
-        if target.can_compress() {
-            target.append_compressed_name(&self.mbox)?;
-            target.append_compressed_name(&self.txt)
-        } else {
-            self.mbox.compose(target)?;
-            self.txt.compose(target)
-        }
+        self.mbox.compose(target)?;
+        self.txt.compose(target)
     }
 
     fn compose_canonical_rdata<Target: Composer + ?Sized>(
